@@ -46,7 +46,7 @@ def reach(fn, starts, goals, avoid=(), avoid_edges=()):
     taking an avoided edge ((block, label) or (block, successor))?  Returns the block path or None.
     Arriving at a goal counts even if the goal is also an avoid point."""
     goals = set(goals)
-    avoid = set(avoid)
+    avoid = set(avoid) | set(getattr(fn, "inl_err", ()))
     avoid_edges = set(avoid_edges)
     marks = defaultdict(list)
     for (b, i) in goals:
@@ -97,7 +97,7 @@ def reach(fn, starts, goals, avoid=(), avoid_edges=()):
 
 def reachable_blocks(fn, starts=((0, 0),), avoid=(), avoid_edges=()):
     """Set of blocks whose *start* is reachable."""
-    avoid = set(avoid)
+    avoid = set(avoid) | set(getattr(fn, "inl_err", ()))
     avoid_edges = set(avoid_edges)
     cut = {}
     for (b, i) in avoid:
@@ -477,6 +477,7 @@ def error_points(fn):
                     ds = d.of(o["pl"]["l"])
                     if ds and all(k == "assign" and _is_err_agg(p["rv"]) for _, k, p in ds):
                         pts.append((b.idx, i))
+    pts.extend(getattr(fn, "inl_err", ()))
     return pts
 
 
